@@ -24,7 +24,9 @@ def judge(path):
                 for i, n in enumerate(ev[5:25]):
                     c["gen." + GEN[i]] = c.get("gen." + GEN[i], 0) + n
             elif ev[0] == "T":
-                cls, mask, hx = ev[1], ev[2], ev[3]
+                cls, mask, hx = ev[1], ev[2] & 0x3ff, ev[3]
+                if ev[2] & (1 << 31):
+                    c["rejected_without_error_flag(C14)"] = c.get("rejected_without_error_flag(C14)", 0) + 1
                 tok = bytes.fromhex(hx)
                 verdict, why = token_class.classify(tok)
                 out["distinct"].add((cls, why, mask != 0))
